@@ -56,6 +56,17 @@ func GenSeq(t *rapid.T) *SeqCase {
 			}
 		}
 	}
+	// one history in eight is about cancellations in the middle of a
+	// dispatch: synchronous handlers of one type only, one of them in the
+	// middle of the list cancels, publishes mostly carry a context of their own
+	mid := !tail && nh >= 2 && rapid.IntRange(0, 7).Draw(t, "midCancel") == 0
+	if mid {
+		for i := range c.Handlers {
+			c.Handlers[i].Async, c.Handlers[i].T = false, 0
+		}
+		k := rapid.IntRange(0, nh-1).Draw(t, "midWho")
+		c.Handlers[k].Once, c.Handlers[k].Cancels, c.Handlers[k].Filter = false, true, ""
+	}
 	// without asynchronous handlers the outcome of a cancellation in the
 	// middle of a dispatch is determined: let some plain handlers cancel
 	anyAsync := false
@@ -118,6 +129,9 @@ func GenSeq(t *rapid.T) *SeqCase {
 				s.Cancelled = true
 			case 2:
 				s.UseCtx = true
+			}
+			if mid && rapid.Bool().Draw(t, "midCtx") {
+				s.Cancelled, s.UseCtx, s.T = false, true, 0
 			}
 			s.Any = rapid.IntRange(0, 3).Draw(t, "viaAny") == 0
 			c.Steps = append(c.Steps, s)
